@@ -642,7 +642,7 @@ class ListenerRequestHandler(BaseHTTPRequestHandler):
             if content_len < 0:
                 raise ValueError("negative value")
             body = self.rfile.read(content_len)
-        except (ValueError, OverflowError) as exc:
+        except (ValueError, OverflowError, MemoryError) as exc:
             self.send_http_error(
                 400, "request-not-valid",
                 _format("Invalid Content-Length header value: {0!A} ({1})",
